@@ -43,7 +43,10 @@ CFG = dict(
          "caller context is varied over all scenarios, built with the real constructors (WithCancel, WithTimeout, WithDeadline, WithCancelCause, "
          "WithDeadlineCause, WithTimeoutCause, errgroup.WithContext, child and grandchild of the cancelled context); the cancellation landing INSIDE "
          "NewStream's transport Write (right after the transport accepted the opener: cancel / deadline; the Write held up, cancel, released) x 3 kinds "
-         "x other calls x context kinds (not a state of the model: predicates only - the reset reaches the server or the opener never does); plus 40 repetitions of the FORCED cancel-then-send schedule "
+         "x other calls x context kinds (not a state of the model: predicates only - the reset reaches the server or the opener never does); the handler "
+         "PARKED IN SendMsg behind the connection's stalled writer (server-side back-pressure) x cancel / deadline x 0..2 exchanges x pending client "
+         "RecvMsg x other calls; SCALE: 9, 17, 33, 101 (thorough also 2, 65, 129, 257) concurrent streams whose handlers wait for their contexts, cancel "
+         "all / the oldest (predicates only); plus 40 repetitions of the FORCED cancel-then-send schedule "
          "(stream loop held at the yield point cs.loop.read while a SendMsg tears the registration down: regression of D-07s)",
     assumptions=["payloads, metadata, methods and names are opaque tokens for client and server",
                  "the transport checks the context of a Write (Endpoint.CheckCtx); wires are FIFO and lossless (C19 for the shipped transports)",
